@@ -25,6 +25,7 @@ def run_shards(workdir, shards, prelude=PRELUDE, jobs=16):
             f.write(prelude + body)
         paths.append(p)
     outs = []
+    jobs = max(1, min(jobs, int(os.environ.get('VERIF_JOBS', '16'))))
     with concurrent.futures.ThreadPoolExecutor(max_workers=jobs) as ex:
         for path, rc, so, se in ex.map(_run_one, paths):
             if rc != 0:
